@@ -114,12 +114,22 @@ void _cds_lfq_init_rcu(struct cds_lfq_queue_rcu *q,
 static inline
 int _cds_lfq_destroy_rcu(struct cds_lfq_queue_rcu *q)
 {
-	struct cds_lfq_node_rcu *head;
+	struct cds_lfq_node_rcu *head, *next;
 
 	head = rcu_dereference(q->head);
-	if (!(head->dummy && head->next == NULL))
-		return -EPERM;	/* not empty */
-	free_dummy(head);
+	/*
+	 * Two racing dequeuers can each append a dummy node, so an empty
+	 * queue holds one or more dummy nodes and nothing else.
+	 */
+	for (next = head; next; next = next->next) {
+		if (!next->dummy)
+			return -EPERM;	/* not empty */
+	}
+	while (head) {
+		next = head->next;
+		free_dummy(head);
+		head = next;
+	}
 	return 0;
 }
 
